@@ -124,3 +124,17 @@ class connection_edges_get_edges:
     }
     result = T.GridT("int", [None, 2, 2])
     props = ["C06"]
+
+
+@contract(MT, "EdgePermuters.BothCoords._permute")
+class both_coords_permute:
+    """C06: `once, or in both orientations`: the listed edges followed by the same edges with their two coordinates exchanged"""
+    params = dict(lattice_edges=T.GridT("int", [None, 2, 2]))
+    lets = dict(n="lattice_edges.shape[0]")
+    ensures = {
+        "C06.both.shape": "result.shape == (2 * n, 2, 2)",
+        "C06.both.first-half": "forall(lambda k, e, c: result[k, e, c] == lattice_edges[k, e, c], (0, n), (0, 2), (0, 2))",
+        "C06.both.second-half": "forall(lambda k, e, c: result[n + k, e, c] == lattice_edges[k, 1 - e, c], (0, n), (0, 2), (0, 2))",
+    }
+    result = T.GridT("int", [None, 2, 2])
+    props = ["C06"]
